@@ -132,40 +132,56 @@ def taint(rep):
                        "rsx(dataflow, solver-free)", "holds", time.time() - t0, queries=n)
 
 
+SECRET_LENGTHS = [40, 125, 300]     # 124/125: "AWS4" + key fills / spills the 128-byte inline buffer of calculate_signature; > 64: HMAC pre-hashes
+
+
 def runtime_capture(rep, report=True):
-    """every request kind of C05-C11 (accepted and rejected) at TRACE verbosity with a unique secret"""
+    """every request kind of C05-C11 (accepted and rejected) at TRACE verbosity with a unique secret, for several secret lengths"""
+    import importlib
     import authfam as A
     import C05, C06, C08, C10, C11
     t0 = time.time()
-    secret = A.SK
-    cases = [c[2] for c in C05.family() + C06.family() + C10.family() + C11.family() + C08.family()]
-    cfgs = [{"auth": {A.AK: A.SK}}, {"auth": {A.AK: A.SK}, "access": "deny"}]
-    scs = [{"config": c, "request": r} for c in cfgs for r in cases]
-    outs = replay.run_scenarios(scs, traced=True)
-    rep.traces_validated += len(scs)
+    base = "wJalrXUtnFEMI/K7MDENG+bPxRfiCYEXAMPLEKEY"
     leaks = []
     logged = 0
-    for sc, o in zip(scs, outs):
-        log = o.get("trace_log", "")
-        logged += len(log)
-        hay = log + " " + o.get("body_text", "") + " " + str(o.get("headers", "")) + " " + str(o.get("transport_error", ""))
-        for needle in (secret, secret + "x", "AWS4" + secret):
-            if needle in hay:
-                i = hay.index(needle)
-                leaks.append({"request": {k: v for k, v in sc["request"].items() if k != "body"}, "where": hay[max(0, i - 160):i + 20]})
-                break
+    total = 0
+    try:
+        for n in SECRET_LENGTHS:
+            secret = (base * (n // len(base) + 1))[:n]
+            os.environ["VERIF_SK"] = secret
+            importlib.reload(A)
+            cases = [c[2] for c in C05.family() + C06.family() + C10.family() + C11.family() + C08.family()]
+            cfgs = [{"auth": {A.AK: A.SK}}, {"auth": {A.AK: A.SK}, "access": "deny"}]
+            scs = [{"config": c, "request": r} for c in cfgs for r in cases]
+            outs = replay.run_scenarios(scs, traced=True)
+            rep.traces_validated += len(scs)
+            total += len(scs)
+            for sc, o in zip(scs, outs):
+                log = o.get("trace_log", "")
+                logged += len(log)
+                hay = log + " " + o.get("body_text", "") + " " + str(o.get("headers", "")) + " " + str(o.get("transport_error", ""))
+                for needle in (secret, "AWS4" + secret):
+                    if needle in hay:
+                        i = hay.index(needle)
+                        leaks.append({"secret_length": n, "request": {k: v for k, v in sc["request"].items() if k != "body"},
+                                      "where": hay[max(0, i - 160):i + 20]})
+                        break
+    finally:
+        os.environ.pop("VERIF_SK", None)
+        importlib.reload(A)
     if not report:
         return bool(leaks)
     if logged < 1000:
         rep.fail_inconclusive("the TRACE capture produced almost no output (%d bytes): the subscriber is not active" % logged)
         return False
     if leaks:
-        res = rep.violation("runtime-leak", "the secret appears in captured output: ...%s" % leaks[0]["where"][-120:], rep.save_cex("leak", leaks[:5]), confirmed=True)
+        res = rep.violation("runtime-leak", "the secret (length %d) appears in captured output: ...%s" % (leaks[0]["secret_length"], leaks[0]["where"][-120:]),
+                            rep.save_cex("leak", leaks[:5]), confirmed=True)
         rep.obligation("runtime capture", "replayer(TRACE capture)", res, time.time() - t0)
     else:
-        rep.obligation("runtime capture: %d requests (every authentication kind, accepted and rejected, 2 configurations) at TRACE verbosity, %d kB of log, "
-                       "responses: the secret never occurs" % (len(scs), logged // 1024), "replayer(TRACE capture; not solver-decided)", "holds",
-                       time.time() - t0, queries=len(scs))
+        rep.obligation("runtime capture: %d requests (every authentication kind, accepted and rejected, 2 configurations, secrets of %s bytes) at TRACE "
+                       "verbosity, %d kB of log, responses: the secret never occurs" % (total, "/".join(map(str, SECRET_LENGTHS)), logged // 1024),
+                       "replayer(TRACE capture; not solver-decided)", "holds", time.time() - t0, queries=total)
     return bool(leaks)
 
 
